@@ -264,8 +264,10 @@ def run(ctx):
                        "probe_max_difference_over_threshold": [float("%.3g" % worst_ratio[0]), worst_ratio[1]]}
         if not judged:
             ctx.maxstat("max_difference_over_threshold (configurations without mismatch)", worst_ratio[0])
-        if st["iterates"] < 20 or len(probe_ok) < 20:
-            ctx.inconc("%s: the comparison hardly ran (%d iterates, %d judgeable blocks seen with criterion 0)" % (name, st["iterates"], len(probe_ok)))
+        if st["iterates"] < 20 or len(st0["blocks"]) < 1:
+            # (a linear residual gives identical analytical and numerical blocks: few of them are printed even with a
+            # criterion of 0; the comparison code runs once per Newton iterate)
+            ctx.inconc("%s: the comparison hardly ran (%d iterates, %d blocks seen with criterion 0)" % (name, st["iterates"], len(st0["blocks"])))
         if judged:
             # A wrong analytical block differs from the centred differences by the same amount whatever the
             # perturbation; truncation error of the differences (stiff residuals, small increments) scales with its
